@@ -93,6 +93,11 @@ def target_spec(name):
         fl = BASE + HOOKS + (["-O2"] if name == "enc_fast" else SAN + ["-O1"])
         units = [(f"{S}/enc/enc_main.cpp", "enc_main.o", fl), (f"{REPO}/art_internal.cpp", "art_internal.o", fl)]
         return "g++", units, ([] if name == "enc_fast" else SAN), ["enc"]
+    if name in ("qp_dbg", "qp_ndbg"):
+        fl = BASE + HOOKS + (["-O1"] if name == "qp_dbg" else ["-O1", "-DNDEBUG"] + SAN)
+        units = [(f"{S}/qsbrptr/qp_main.cpp", "qp_main.o", fl)]
+        units += [(f"{REPO}/{f}", f.replace(".cpp", ".o"), fl) for f in ["qsbr.cpp", "qsbr_ptr.cpp"]]
+        return "g++", units, (SAN if name == "qp_ndbg" else []) + ["-pthread"], ["qsbrptr"]
     if name == "qsbr_fault":
         fl = BASE + HOOKS + ["-O1"]   # no sanitizer: test_heap.cpp replaces operator new only then
         units = [(f"{S}/fault/qsbr_fault.cpp", "qsbr_fault.o", fl)]
@@ -823,7 +828,95 @@ def check_olc(pid, tier, seed):
     return finish(pid, res)
 
 
+C17_RULE = ("case = one generated operation sequence over 4 qsbr_ptr slots, 3 byte buffers and 2 qsbr_ptr_span slots "
+            "(construct from pointer / null / default, copy- and move-construct, copy- and move-assign between "
+            "distinct slots, ++ -- += -= + - (inside the buffer, never on null), * [] -> difference, all "
+            "comparisons, destroy; spans from spans incl. empty and null data, copies, moves, iteration) compared "
+            "step by step with a shadow model of raw pointers; liveness probes after generated prefixes fork a "
+            "child that calls quiescent() or pause()+resume(): in the assertion-enabled build it must abort iff "
+            ">= 1 non-null wrapper is alive, in the NDEBUG build it must never abort; plus ALL sequences up to "
+            "length 4 over a reduced 25-operation alphabet on 2 slots (exhaustive); non-trivial = the sequence "
+            "contains an assignment over a live non-null wrapper, or a moved-from / null wrapper destroyed later, "
+            "or pointer arithmetic on a registered wrapper; distinct by hash of the sequence")
+
+
+def check_c17(pid, tier, seed):
+    t0 = time.time()
+    dbg = build("qp_dbg")
+    ndbg = build("qp_ndbg")
+    res = Result()
+    outdir = os.path.join(WORK, "run", pid)
+    shutil.rmtree(outdir, ignore_errors=True)
+    os.makedirs(outdir)
+    faildir = os.path.join(FOUND, pid, "found")
+    nrep = 0
+    for path in sorted(glob.glob(os.path.join(VERIF, "replays", pid, "*.txt"))):
+        nrep += 1
+        for exe in (dbg, ndbg):
+            rc, out = replay_once(exe, [], path)
+            if rc != 0 and confirm_replay(exe, [], path):
+                res.violations.append((path, out[-300:]))
+    per = 1200 if tier == "quick" else 120000
+    cmds, names = [], []
+    for i in range(NCPU):
+        names.append(f"exh{i}")
+        cmds.append([dbg, "--exhaustive", "--part", str(i), "--parts", str(NCPU)])
+    for i in range(NCPU):
+        names.append(f"rnd{i}")
+        cmds.append([dbg, "--seed", str(seed * 1000 + i), "--cases", str(per)])
+    for i in range(4):
+        names.append(f"ndbg{i}")
+        cmds.append([ndbg, "--seed", str(seed * 1000 + 100 + i), "--cases", str(per // 2)])
+    full = [c + ["--out", os.path.join(outdir, n + ".json"), "--fail-dir", outdir] for n, c in zip(names, cmds)]
+    for c, rc, out, err in run_parallel(full, timeout=6 * 3600):
+        if rc == 0:
+            continue
+        if rc == 1 and "FAILURE " in out:
+            line = [l for l in out.splitlines() if l.startswith("FAILURE ")][0]
+            path = line.split()[1]
+            msg = line.split("::", 1)[1].strip() if "::" in line else ""
+            if confirm_replay(c[0], [], path):
+                os.makedirs(faildir, exist_ok=True)
+                dst = os.path.join(faildir, os.path.basename(path))
+                shutil.copy(path, dst)
+                res.violations.append((dst, msg))
+            else:
+                res.inconclusive.append(f"failure did not reproduce: {path}")
+        elif rc == "timeout":
+            res.inconclusive.append("worker hit the wall-clock budget")
+        else:
+            os.makedirs(faildir, exist_ok=True)
+            dst = os.path.join(faildir, f"C17_crash_{os.path.basename(c[-3])}.txt")
+            with open(dst, "w") as f:
+                f.write(f"# harness process died rc={rc}: {' '.join(c)}\n# {err[-1500:]}\n")
+            res.violations.append((dst, f"crash rc={rc}: {err[-300:]}"))
+    counters, distinct, samples = merge_stats([os.path.join(outdir, n + ".json") for n in names])
+    cov = {
+        "evaluations": int(counters.get("cases", 0)),
+        "distinct_nontrivial": int(distinct),
+        "rule": C17_RULE,
+        "samples": samples[:3] if samples else ["(no sample)"],
+        "operations": counters.get("ops", 0),
+        "liveness_probes": counters.get("probes", 0),
+        "probes_expect_rejected": counters.get("probes_expect_rejected", 0),
+        "probes_expect_accepted": counters.get("probes_expect_accepted", 0),
+        "probes_in_ndebug_build": counters.get("probes_ndebug", 0),
+        "exhaustive_sequences_up_to_length_4": counters.get("exhaustive_sequences", 0),
+        "exhaustive_subdomains": ["all sequences of length <= 4 over the reduced 25-operation alphabet on 2 slots, "
+                                  "liveness probed at the end of each (every prefix is a sequence of its own)"],
+        "regression_replays": nrep,
+        "inconclusive": res.inconclusive,
+        "exhaustive": False,
+    }
+    write_evidence(pid, tier, seed, "exploration", cov, time.time() - t0, len(res.violations),
+                   ["the shadow model is plain raw-pointer arithmetic inside the buffers",
+                    "self-assignment and arithmetic outside the buffer / on null are excluded (UB or excluded by the statement)",
+                    "abort of the forked child == rejection (UNODB_DETAIL_ASSERT in quiescent()/qsbr_pause())"])
+    return finish(pid, res)
+
+
 CHECKS = {
+    "C17": check_c17,
     "C08": check_seq,
     "C03": check_olc,
     "C04": check_olc,
@@ -841,6 +934,7 @@ CHECKS = {
 }
 
 REPLAY = {
+    "C17": ("qp_dbg", lambda pid: []),
     "C08": ("seq", lambda pid: ["--prop", pid]),
     "C03": ("olc", lambda pid: ["--prop", pid]),
     "C04": ("olc", lambda pid: ["--prop", pid]),
@@ -868,7 +962,7 @@ def main():
     a = ap.parse_args()
     os.makedirs(WORK, exist_ok=True)
     if a.build_all:
-        for t in ["seq", "enc_fast", "enc_san", "lock", "qsbr", "olc", "qsbr_fault"]:
+        for t in ["seq", "enc_fast", "enc_san", "lock", "qsbr", "olc", "qsbr_fault", "qp_dbg", "qp_ndbg"]:
             build(t)
         return 0
     seed = a.seed if a.seed is not None else int(os.environ.get("VERIF_SEED", "1") or 1)
